@@ -29,4 +29,8 @@ T5 == << D(<<43>>,  0,  TRUE),
          B(<<42>>,  50, TRUE),
          B(<<37>>,  50, FALSE),
          U(<<115, 110>>) >>
+(* T3: minimal table for 5-leaf bounds: + (0, comm), mn (0, non-comm), * (50, comm).                   *)
+T3 == << B(<<43>>,       0,  TRUE),
+         B(<<109, 110>>, 0,  FALSE),
+         B(<<42>>,       50, TRUE) >>
 =============================================================================
